@@ -8,5 +8,6 @@ CONSTANTS
   UntouchedIfNoSite = TRUE
   WalkEverywhere = TRUE
   OnePin = TRUE
+  SiteIndependent = TRUE
   Tier = "quick"
 INVARIANTS Complete Minimal Unchanged OnePinPerStatement ExclusionsExact ResidualOnlyExcluded Emit
